@@ -56,6 +56,7 @@ theorem inv_step (c : Nat) (hist : List (Store × In)) (st : St) (db : Store) (i
           · simp [Inv]
           · simp [Inv]
           · simp [Inv]
+          · simp [Inv]
           · split <;> simp [Inv]
 
 theorem inv_after (c : Nat) (pre hist : List (Store × In)) (st : St) (h : Inv c pre st) :
@@ -99,6 +100,7 @@ theorem step_install_iff (c : Nat) (db : Store) (st : St) (i : In) :
         · simp at hs
         · rename_i name sig hopen
           split at hs
+          · simp at hs
           · simp at hs
           · simp at hs
           · simp at hs
